@@ -74,9 +74,9 @@ def impossible_trace_obs():
         return replay
 
     F = lambda v: jnp.asarray(v, jnp.float32)  # noqa: E731
-    return [Ob("C10/impossible-trace/static(uniform;normal)", f, (gfi.KEY, F(2.5), F(0.3)), replay=jit_replay(f), selfcheck=False, timeout_s=30,
+    return [Ob("C10/impossible-trace/static(uniform;normal)", f, (gfi.KEY, F(2.5), F(0.3)), replay=jit_replay(f), selfcheck=False, timeout_s=30, exact_specials=True,
                note="the uniform site's value ranges over ALL reals (outside the support its log-density is -inf): project(selection not containing it) is the finite sum of the selected sites, project(none) == 0"),
-            Ob("C10/impossible-trace/vmap(uniform)", fv, (gfi.KEY, jnp.asarray([0.5, 2.5], jnp.float32)), replay=jit_replay(fv), selfcheck=False, timeout_s=30,
+            Ob("C10/impossible-trace/vmap(uniform)", fv, (gfi.KEY, jnp.asarray([0.5, 2.5], jnp.float32)), replay=jit_replay(fv), selfcheck=False, timeout_s=30, exact_specials=True,
                note="vmapped uniform with values over all reals: project(none) == 0, project(all) == the score")]
 
 
